@@ -1,9 +1,9 @@
 (* engine c17: runs the Refcount model on the scripts of harness/c17_io.c (sub-engine "io") and on the open/close
    skeleton of harness/c17_mll.c (sub-engine "mll").
-   io script:   variant faithful|fixa ; fuel <n> ; world <kinds> <links> ; open <n> <r|m> ; walk|node <c> <n1> .. ; close <c>
+   io script:   variant cur|old ; fuel <n> ; world <kinds> <links> ; open <n> <r|m> ; walk|node <c> <n1> .. ; close <c>
    io output:   "<result> | io <num_open> <num_iolist> <slots> | adf <maximum_files> <in_use:fd:name:links;..> | fds <ledger size>"
                 or "diverge" when ADFI_close_file runs out of fuel (the C: unbounded recursion)
-   mll script:  variant faithful|fixed ; open <h> <cgiofail|latefail|ok> ; close <h> <ok|fail>   (h = handle label of the harness)
+   mll script:  variant cur|old ; open <h> <cgiofail|latefail|ok> ; close <h> <ok|fail>   (h = handle label of the harness)
    mll output:  "<open|close> <0|1> | mll <n_open> <n_cgns_files> <cgns_file_size> <file_number_offset> <fn>" *)
 open Model
 open Zutil
@@ -34,13 +34,13 @@ let dump (s : io) =
   Buffer.contents b
 
 let run_io () =
-  let v = ref Faithful and fuel = ref 20000 and w = ref { kinds = []; wlinks = [] } and s = ref io_init in
+  let v = ref Cur and fuel = ref 20000 and w = ref { kinds = []; wlinks = [] } and s = ref io_init in
   let stop = ref false in
   (try while not !stop do
     let line = input_line stdin in
     match words line with
     | [] -> ()
-    | ["variant"; x] -> v := (if x = "fixa" then FixA else Faithful)
+    | ["variant"; x] -> v := (if x = "old" then Old else Cur)
     | ["fuel"; n] -> fuel := int_of_string n
     | ["world"; ks; ls] ->
         let kinds = List.map kind_of_string (String.split_on_char ',' ks) in
@@ -69,7 +69,7 @@ let run_io () =
   done with End_of_file -> ())
 
 let run_mll () =
-  let v = ref MFaithful and m = ref mll_init in
+  let v = ref MCur and m = ref mll_init in
   let fns = Array.make 64 0 in         (* as harness/c17_mll.c: handle label -> file number of its last successful open *)
   (try while true do
     let line = input_line stdin in
@@ -78,7 +78,7 @@ let run_mll () =
         (n2i !m.fsize) (n2i !m.foffset) fn in
     match words line with
     | [] -> ()
-    | ["variant"; x] -> v := (if x = "fixed" then MFixed else MFaithful)
+    | ["variant"; x] -> v := (if x = "old" then MOld else MCur)
     | ["open"; h; oc] ->
         let h = int_of_string h in
         let oc = (match oc with "cgiofail" -> OCgioFail | "latefail" -> OLateFail | _ -> OSuccess) in
